@@ -75,7 +75,7 @@ def strategy(draw):
         "null_frac": draw(st.sampled_from([0.0, 0.0, 0.05, 0.3] if (given is not None and not semantic) else [0.0, 0.0, 0.05])),
         "female_y": draw(st.sampled_from(["null", "low"])),
         "shuffle": draw(st.booleans()), "fasta": semantic and draw(st.booleans()),
-        "corrupt": draw(st.sampled_from(["move", "rename", "drop", "restyle"])) if kind == "negative" else None,
+        "corrupt": draw(st.sampled_from(["move", "rename", "drop", "restyle", "empty"])) if kind == "negative" else None,
     }
 
 
@@ -307,6 +307,8 @@ def check_case(case):
                     rows[k] = (c, s + 1, e, g, v, dd)
                 elif case["corrupt"] == "rename":
                     rows[k] = (c, s, e, g + "x", v, dd)
+                elif case["corrupt"] == "empty":
+                    rows = []  # a header-only coverage file: no bin at all is not "the same bins" (seeded change C05p skipped it)
                 elif case["corrupt"] == "restyle":
                     # the same coordinates and names under the other chromosome naming style (chr1 <-> 1): other bins
                     rows = [((c_[3:] if c_.startswith("chr") else "chr" + c_), s_, e_, g_, v_, d_) for c_, s_, e_, g_, v_, d_ in rows]
